@@ -46,6 +46,18 @@ PROPS = {
                  "Failures matching the known finding C11-left-join-left-only-rows-not-maintained (LEFT JOIN query, results differ only in rows whose nullable-side columns are all NULL) are tolerated and counted."),
         "assumptions": ["values are integers, text and NULL (rendered identically by the API and the oracle)", "a case ends at its first tolerated known-finding hit (the stale row would poison later comparisons)"],
     },
+    "C12": {
+        "level": "exploration",
+        "workers": 16,
+        "engine": "E3-live",
+        "technique": "property-based schedule sampling against a live agent: a generated script interleaves writes (single rows, bursts of 2-1500 changed rows in one transaction, range deletes) with attaches of further subscribers (from scratch, skip_rows, resume from 0-449 changes back) and pauses of 0-700 ms around the matcher's 600 ms batching window; oracle: per-stream event model (ids +1 from the snapshot's id / the resume point, no event after an error event, inserts/updates/deletes consistent with the replayed rows) and, once quiet, every stream still open stands at the end of the change log and from-scratch streams replay to the query result",
+        "level_text": ("one subscription over a table of 20-200 or 1100-1500 rows; the primary stream attaches before any write; 5-15 (quick) / 5-39 (thorough) steps; every attach opens a real HTTP stream which is read to the end of "
+                       "the case; a stream that ends (error event, close) is accepted - the prefix it delivered must still obey the id rules - a stream that stays open must not have skipped or repeated anything: "
+                       "position = MAX(id) of the subscription's changes table, replay = SELECT on the database"),
+        "level_note": "the interleaving of the attach's catch-up read with the matcher's commit and broadcast is sampled by wall-clock placement of the attach (pauses aimed at the batching window), not enumerated - the harness does not own the scheduler inside the agent; the attach buffers hold 10240 events, a burst larger than that is not produced (1500 max), so the 'gave up' path is not reached; the client library's gap detection (klukai-client) is exercised by the separate sub-campaign 'client' when present",
+        "rule": ("generated as above. Non-trivial: at least one attach happened within 700 ms after a write (its catch-up can overlap the batch that carries that write), at least three streams were open and the change log has at least two entries. Distinct = hash of the case."),
+        "assumptions": ["resume points lie within the retained change log (the log is pruned to ~500 entries only every 5 minutes; cases are shorter)"],
+    },
     "C13": {
         "level": "fault_enumeration",
         "workers": 16,
